@@ -115,6 +115,7 @@ Burst(nm, e, n, coin, rot0, par) ==
 \* integration's canonical failure.
 CanonFail(api) ==
   CASE api = "http"     -> Kd("http", "500", 500)
+    [] api = "httpc"    -> Kd("httpc", "500", 500)
     [] api \in GrpcApis -> Kd(api, "Internal", 13)
     [] OTHER            -> Kd(api, "other", 0)
 
